@@ -41,6 +41,13 @@ int  h_held_by_me (nsync_mu *mu);          /* 0 no, 1 reader, 2 writer */
 int  h_writer_inside (nsync_mu *mu);       /* some thread is inside a write section */
 void h_install_rwlock_listener (void);     /* cross-check at nsync's own acquisition points */
 
+/* "Has this lock call itself waited?"  A call has waited iff its thread's waiter record was taken off a queue
+   (by an unlocker that woke it) since h_call_begin(): that is what nsync's remove_count counts.  Counting
+   futex sleeps instead would be wrong: a queued thread may be woken before it ever reaches the futex. */
+void h_call_begin (void);
+int  h_call_has_waited (int fiber);
+unsigned h_call_dequeues (int fiber);
+
 /* results of threads, for outcome strings */
 extern int h_res[H_MAXT][H_MAXOPS];
 void h_outcome_results (void);
